@@ -18,5 +18,6 @@ CONF = {
                     'the packet decoding loop (decodingLayerDecoder, eagerPacket.NextDecoder: stop on empty payload) as modelled by ie_walk; it is the subject of C01/C03',
                     'a body value is represented by the little-endian octets of its fields (bijection done by the harness)'],
     'trusted_base': ['model: coq/Model/Ldot11mgmtModel.v is a hand transcription of layers/dot11.go Dot11InformationElement and the Dot11Mgmt* bodies with fixed parts as repaired by the fix: commits of agent-fixer and agent-ldot11'],
-    'explanation': 'Theorems over all byte strings / values about the Gallina model of the management bodies and the information element: decoders (no panic, fuel bound of the element walk, fresh = reused) PROVED; serializer no-panic, junk freedom and the element round trip are STATED in Props (C07_dot11mgmt_*_statement, C06_dot11mgmt_ie_roundtrip_statement) and tested only; correspondence ties the model to layers/dot11.go. Bodies without fields (ReassociationResp, ProbeReq, MeasurementPilot, ATIM, Action, ActionNoAck, ArubaWLAN) only store Contents and are not modelled.',
+    'explanation': 'Theorems over all byte strings / values about the Gallina model of the management bodies and the information element: decoders (no panic, fuel bound of the element walk, fresh = reused) and serializers (explicit output, hence no panic and junk freedom; round trip of the element and of the bodies) all proved; correspondence ties the model to layers/dot11.go. Bodies without fields (ReassociationResp, ProbeReq, MeasurementPilot, ATIM, Action, ActionNoAck, ArubaWLAN) only store Contents and are not modelled.',
+    'mutations_tried': ['drop the OUI/ExtensionID reset (caught)', 'drop checkOffsetLength of vendor elements (caught)', 'extension element Info starts at the extension ID (caught)', 'AssociationResp payload starts at octet 4 (caught)', 'ProbeResp.SerializeTo does not write Flags (caught)', 'element length check off by one (caught)'],
 }
